@@ -1660,6 +1660,13 @@ hdf_read_vars(XDR *xdrs, NC *handle, int32 vg)
                                      So we can't catch this error -GV*/
                             data_count = Hlength(handle->hdf_file, DATA_TAG, sub_id);
 
+                            /* ... but when the descriptor says that there is data
+                               and its length still cannot be told (the record of a
+                               special element could not be read), the dataset must
+                               not be presented as an empty one */
+                            if (data_count == FAIL && Hoffset(handle->hdf_file, DATA_TAG, sub_id) >= 0)
+                                HGOTO_FAIL(FAIL);
+
                             break;
                         case DFTAG_SDRAG: /* ----- Ragged Array index ----- */
                             rag_ref = sub_id;
